@@ -107,13 +107,14 @@ static int check_model(const rsig *s, const char *what) {
 }
 
 /* ------------------------------------------------------------------ mutation catalogue */
-#define NMUT 46
+#define NMUT 50
 static const char *MUTNAME[NMUT] = {
 	"chain1-input", "chainlast-input", "rfc-suffix", "chain1-time", "chainlast-time", "rfc-time", "cal-input", "cal-aggrtime-consistent",
 	"cal-flip-link", "cal-drop-link", "cal-add-link", "auth-time", "auth-hash", "pub-time", "pub-hash", "index-last-top", "index-last-bottom",
 	"meta-imprint-like", "meta-pad-flags", "meta-pad-tlv16", "meta-pad-value", "meta-pad-odd", "meta-pad-not-first", "meta-pad-twice",
 	"index-extra", "index-prefix", "rfc-index", "doc-sha1", "chain-sha1", "rfc-tst-sha1", "rfc-sig-sha1", "rfc-out-sha1", "all-times-shift", "cal-no-aggrtime",
-	"meta-padv-00", "meta-padv-ff", "meta-padv-0201", "meta-padv-0001", "meta-padv-ff01", "meta-padv-0102", "meta-padv-0100", "meta-padv-0202", "meta-padv-empty", "meta-padv-010101", "meta-padv-0101-ok", "meta-padv-01-ok"
+	"meta-padv-00", "meta-padv-ff", "meta-padv-0201", "meta-padv-0001", "meta-padv-ff01", "meta-padv-0102", "meta-padv-0100", "meta-padv-0202", "meta-padv-empty", "meta-padv-010101", "meta-padv-0101-ok", "meta-padv-01-ok",
+	"cal-add-right-lowest", "cal-add-left-lowest", "cal-add-right-second", "cal-dup-first"
 };
 
 static rlink *find_meta(rsig *s, int *chain) {
@@ -222,6 +223,18 @@ static int mutate(rsig *s, int m) {
 			if (!s->has_cal) return -1;
 			s->cal_has_aggr = 0;
 			return 0;
+		}
+		case 46: case 47: case 48: case 49: { /* a surplus link at the input end of the calendar chain (the record after the chain is recomputed) */
+			int at = m == 48 ? 1 : 0, j;
+			if (!s->has_cal || s->ncal >= RS_MAXCAL || s->ncal < 2) return -1;
+			for (j = s->ncal; j > at; j--) s->cal[j] = s->cal[j - 1];
+			s->ncal++;
+			if (m != 49) {
+				s->cal[at] = s->cal[at + 1];
+				s->cal[at].is_left = (m == 47);
+				s->cal[at].sib[5] ^= 0x21;
+			}
+			return rs_fix(s, RS_FIX_TAIL);
 		}
 	}
 	return -1;
